@@ -87,12 +87,15 @@ func (s *Scheduler) Schedule(g *ExecutionGraph) error {
 
 				err := s.runStage(stage)
 				if err != nil {
-					stage.UpdateStatus(StatusError)
-
 					if !stage.AllowFailure {
+						// the error first: a loop that finds the stage failed (a pipeline nested by several
+						// stages is scheduled by several loops) must find the error recorded too
 						g.error = err
+						stage.UpdateStatus(StatusError)
 						return
 					}
+
+					stage.UpdateStatus(StatusError)
 				}
 
 				stage.UpdateStatus(StatusDone)
